@@ -227,6 +227,24 @@ def check_static_file(P, R):
     cl = rd.closure_nodes(hdr, cn) if hdr is not None else []
     ok = any(isinstance(x, ast.Constant) and x.value == 'HTTP_RANGE' for x in cl)
     R.ob('C17.a', f, call, ok, text='header argument = HTTP_RANGE', detail='' if ok else 'the parser is not given the Range header', nontrivial=False)
+    # every answer that delivers the file (not 304 / 4xx) is given after the Range header has been looked at
+    rtests = [n for n in g.nodes if n.kind == 'test' and n.ast is not None and g.dominates(n, cn) and any(
+        isinstance(x, ast.Constant) and x.value == 'HTTP_RANGE' for x in rd.closure_nodes(n.ast, n))]
+    if not rtests:
+        R.undecided('C17.a', f, call, 'static_file', 'no test of the Range header dominates the range parser call')
+    else:
+        rt_ = rtests[-1]
+        for r_ in [n for n in g.nodes if n.kind == 'stmt' and isinstance(n.ast, ast.Return) and isinstance(n.ast.value, ast.Call)
+                   and (dotted(n.ast.value.func) or '').split('.')[-1] == 'HTTPResponse']:
+            kws = {k.arg: k.value for k in r_.ast.value.keywords}
+            stv = kws.get('status')
+            if stv is not None and isinstance(stv, ast.Constant) and stv.value not in (200, None):
+                continue          # 304 / 206 are decided elsewhere
+            ok = g.dominates(rt_, r_)
+            R.ob('C17.a', f, r_.ast, ok, text=f'`{short(r_.ast)}` only after the Range header was examined', detail='' if ok else
+                 f'`{short(r_.ast)}` answers before the Range header is looked at: a request with a Range header gets a plain 200 on this path (for an empty file '
+                 f'no range is satisfiable, so the answer must be 416), neither 206 nor 416',
+                 why='a Range request is answered 206 with the slice or 416, never silently 200', key_extra='range-first')
     # falsy -> 416 before use
     tests = [(n, lab) for (n, lab) in T.falsy_tests(g, res)]
     from .c16 import deny_return
@@ -426,6 +444,21 @@ def value_is_none_or_parsed(v):
 def check_parse_date(P, R):
     f = P.func('ombott.common_helpers:parse_date')
     mk = [c for c in walk_shallow(f.node) if isinstance(c, ast.Call) and dotted(c.func) in ('time.mktime', 'calendar.timegm')]
+    if not mk:
+        # the datetime route: email.utils.parsedate_to_datetime() gives a *naive* datetime for a date without a zone (the asctime form of
+        # HTTP-date, which names UTC), and naive.timestamp() reads it in the server's local zone
+        ts_calls = [c for c in walk_shallow(f.node) if isinstance(c, ast.Call) and call_attr(c) == 'timestamp' and not c.args]
+        for c in ts_calls:
+            cl = f.rd.closure_nodes(c.func.value, f.cfg.node_of_stmt(c)[0])
+            from_p2d = any(isinstance(x, ast.Call) and (dotted(x.func) or '').endswith('parsedate_to_datetime') for x in cl)
+            fixed = any(isinstance(x, ast.Call) and call_attr(x) in ('replace', 'astimezone') and any(k.arg == 'tzinfo' for k in x.keywords) for x in cl) or \
+                any(isinstance(x, ast.Attribute) and x.attr == 'tzinfo' for x in ast.walk(f.node))
+            if from_p2d:
+                R.ob('C17.f', f, c, fixed, text=f'`{short(c)}`: a date without a zone is read as UTC', detail='' if fixed else
+                     f'`{short(c)}` converts the result of parsedate_to_datetime(): for the zone-less asctime form of an HTTP date that is a naive datetime, and '
+                     f'naive.timestamp() interprets it in the server\'s local time zone - on a server east of Greenwich a date equal to the file\'s is parsed too '
+                     f'small and the answer is 200 instead of 304',
+                     why='an If-Modified-Since date not older than the file yields 304 (all three HTTP-date forms)', key_extra='naive-timestamp')
     R.require(mk, 'parse_date: no mktime/timegm conversion')
     for c in mk:
         a = c.args[0] if c.args else None
